@@ -79,6 +79,56 @@ def finder_resolve(root, name):
     return None
 
 
+def ext_modules(ctx, tmp):
+    """extension modules (files with one of the interpreter's extension suffixes) instead of .py files (a name that has BOTH is outside
+    the property's quantifier: the interpreter prefers the extension module, xdoctest the source file):
+    the implementation against the interpreter's FileFinder with its full loader list (no model: suffixes are outside it)"""
+    import importlib.machinery as M
+    from xdoctest.utils import util_import
+    sufs = list(M.EXTENSION_SUFFIXES)
+    rng = ctx.rng('ext')
+    loaders = [(M.ExtensionFileLoader, sufs), (M.SourceFileLoader, ['.py'])]
+    nv = 0
+    for n in range(60 if ctx.tier == 'quick' else 600):
+        root = os.path.join(tmp, 'ext%d' % n)
+        entries = []
+        for name in ('a', 'b', 'pkg/c', 'pkg/d'):
+            r = rng.random()
+            if r < 0.35:
+                entries.append(name + rng.choice(sufs))
+            elif r < 0.55:
+                entries.append(name + '.py')
+        if any(e.startswith('pkg/') for e in entries) and rng.random() < 0.8:
+            entries.append('pkg/__init__.py')
+        make_tree(root, [e for e in entries])
+        for name in ('a', 'b', 'pkg.c', 'pkg.d', 'pkg'):
+            ctx.evaluations += 1
+            d = root
+            exp = None
+            parts = name.split('.')
+            for i, part in enumerate(parts):
+                importlib.invalidate_caches()
+                spec = M.FileFinder(d, *loaders).find_spec(part)
+                if spec is None or spec.loader is None:
+                    exp = None
+                    break
+                if spec.submodule_search_locations is not None:
+                    d = os.path.dirname(spec.origin)
+                    exp = d if i == len(parts) - 1 else None
+                else:
+                    exp = spec.origin if i == len(parts) - 1 else None
+                    break
+            try:
+                got = util_import.modname_to_modpath(name, sys_path=[root])
+            except Exception as e:
+                got = 'raised:' + type(e).__name__
+            if got != exp and nv < 4:
+                nv += 1
+                ctx.violation('import-resolution', {'what': 'modname_to_modpath(%r) = %r but the interpreter\'s finder resolves it to %r (tree with extension modules %r)' % (
+                    name, got if got is None or str(got).startswith('raised') else os.path.relpath(got, root), exp and os.path.relpath(exp, root), sorted(entries)),
+                    'tree': sorted(entries), 'theorem_or_correspondence': 'implementation vs importlib.machinery.FileFinder (extension suffixes)'}, True)
+
+
 def rel(root, p):
     if p is None:
         return None
@@ -300,6 +350,7 @@ def run(ctx):
                               'theorem_or_correspondence': 'implementation vs importlib.machinery.FileFinder / round trip'}, True)
         two_roots(ctx, tmp)
         import_by_path(ctx, tmp)
+        ext_modules(ctx, tmp)
     finally:
         shutil.rmtree(tmp, ignore_errors=True)
     ctx.exhaustive = True
